@@ -45,7 +45,7 @@ func init() {
 		Real:     []string{"seehuhn.de/go/pdf Reader, SequentialScan, MakeReader, xref, scanner, filters, pagetree, page, extract.Font, textextract, reader, outline, nametree (working tree)"},
 		Stub:     []string{"stored image with injected corruption (simdisk)", "io.ReaderAt personality"},
 		Quick:    core.Budget{Runs: 24000, Secs: 150},
-		Thorough: core.Budget{Runs: 2000000, Secs: 1500},
+		Thorough: core.Budget{Runs: 2000000, Secs: 900},
 		Run:      Run,
 		Corners:  corners,
 	})
@@ -64,6 +64,17 @@ var filterNamePat = regexp.MustCompile(`/Filter ?/([A-Za-z0-9]+)`)
 var hostileInts = []string{"0", "1", "-1", "2", "255", "65535", "65536", "1048576", "16777215", "16777216", "2147483647", "2147483648", "4294967296", "9223372036854775807", "-9223372036854775808", "99999999999999999999"}
 
 // corrupt applies n storage faults / structure-aware edits.
+// posIn draws a position in [0,n) from a fixed-size range, so that the
+// recorded tape value does not depend on the (not exactly reproducible)
+// length of the image.
+func posIn(t *tape.Tape, label string, n int) int {
+	if n <= 0 {
+		return 0
+	}
+	v := t.Draw64(label, 1<<30)
+	return int(v * uint64(n) >> 30)
+}
+
 func corrupt(t *tape.Tape, img []byte, n int) ([]byte, []string) {
 	out := append([]byte(nil), img...)
 	var kinds []string
@@ -71,11 +82,11 @@ func corrupt(t *tape.Tape, img []byte, n int) ([]byte, []string) {
 		l := fmt.Sprintf("c%d", i)
 		switch t.Weighted(l+".kind", 3, 2, 2, 2, 2, 2, 6, 5, 2, 3, 3, 3) {
 		case 0:
-			p := t.Draw(l+".pos", len(out))
+			p := posIn(t, l+".pos", len(out))
 			out[p] ^= 1 << t.Draw(l+".bit", 8)
 			kinds = append(kinds, fmt.Sprintf("bitflip@%d", p))
 		case 1:
-			p := t.Draw(l+".pos", len(out))
+			p := posIn(t, l+".pos", len(out))
 			k := 1 + t.Draw(l+".len", 64)
 			b := byte(tape.Pick(t, l+".fill", 0, 0xff, 0x20, 0x30, 0x0a))
 			for j := p; j < p+k && j < len(out); j++ {
@@ -83,14 +94,14 @@ func corrupt(t *tape.Tape, img []byte, n int) ([]byte, []string) {
 			}
 			kinds = append(kinds, fmt.Sprintf("overwrite@%d+%d", p, k))
 		case 2: // zeroed sector (lost write)
-			p := t.Draw(l+".pos", len(out)) &^ 511
+			p := (posIn(t, l+".pos", len(out)) &^ 511)
 			for j := p; j < p+512 && j < len(out); j++ {
 				out[j] = 0
 			}
 			kinds = append(kinds, fmt.Sprintf("zero-sector@%d", p))
 		case 3: // misdirected block: a block lands somewhere else
-			a := t.Draw(l+".a", len(out))
-			b := t.Draw(l+".b", len(out))
+			a := posIn(t, l+".a", len(out))
+			b := posIn(t, l+".b", len(out))
 			k := 1 + t.Draw(l+".k", 512)
 			if a+k > len(out) {
 				k = len(out) - a
@@ -101,17 +112,17 @@ func corrupt(t *tape.Tape, img []byte, n int) ([]byte, []string) {
 			copy(out[b:b+k], append([]byte(nil), out[a:a+k]...))
 			kinds = append(kinds, fmt.Sprintf("misdirected %d->%d+%d", a, b, k))
 		case 4: // duplicated block inserted
-			a := t.Draw(l+".a", len(out))
+			a := posIn(t, l+".a", len(out))
 			k := 1 + t.Draw(l+".k", 300)
 			if a+k > len(out) {
 				k = len(out) - a
 			}
-			b := t.Draw(l+".b", len(out))
+			b := posIn(t, l+".b", len(out))
 			seg := append([]byte(nil), out[a:a+k]...)
 			out = append(out[:b:b], append(seg, out[b:]...)...)
 			kinds = append(kinds, fmt.Sprintf("duplicate %d+%d at %d", a, k, b))
 		case 5: // torn tail
-			cut := t.Draw(l+".cut", len(out)+1)
+			cut := posIn(t, l+".cut", len(out)+1)
 			out = out[:cut]
 			kinds = append(kinds, fmt.Sprintf("truncate@%d", cut))
 		case 6: // number after a structural key
@@ -119,7 +130,7 @@ func corrupt(t *tape.Tape, img []byte, n int) ([]byte, []string) {
 			if len(ms) == 0 {
 				continue
 			}
-			m := ms[t.Draw(l+".m", len(ms))]
+			m := ms[posIn(t, l+".m", len(ms))]
 			repl := hostileInts[t.Draw(l+".v", len(hostileInts))]
 			key := string(out[m[2]:m[3]])
 			out = append(out[:m[4]:m[4]], append([]byte(repl), out[m[5]:]...)...)
@@ -129,8 +140,8 @@ func corrupt(t *tape.Tape, img []byte, n int) ([]byte, []string) {
 			if len(ms) == 0 {
 				continue
 			}
-			m := ms[t.Draw(l+".m", len(ms))]
-			src := ms[t.Draw(l+".src", len(ms))]
+			m := ms[posIn(t, l+".m", len(ms))]
+			src := ms[posIn(t, l+".src", len(ms))]
 			target := string(out[src[2]:src[3]])
 			if t.Bool(l+".rand", 1, 4) {
 				target = strconv.Itoa(t.Draw(l+".num", 40))
@@ -155,7 +166,7 @@ func corrupt(t *tape.Tape, img []byte, n int) ([]byte, []string) {
 			if len(ms) == 0 {
 				continue
 			}
-			m := ms[t.Draw(l+".m", len(ms))]
+			m := ms[posIn(t, l+".m", len(ms))]
 			repls := []string{"/W [0 0 0]", "/W [8 8 8]", "/W [1 0 9]", "/Index [0 99999999]", "/Index [5 -1]", "/Kids []", "/Kids [1 0 R 1 0 R]", "/Kids 5", "/MediaBox [0 0 1e300 -5]",
 				"/Filter [/FlateDecode /FlateDecode /FlateDecode /FlateDecode /FlateDecode /FlateDecode /FlateDecode /FlateDecode /FlateDecode]", "/Filter [/DCTDecode /FlateDecode]", "/DecodeParms [7 /X]", "/Filter [1 0 R]"}
 			repl := repls[t.Draw(l+".v", len(repls))]
@@ -166,7 +177,7 @@ func corrupt(t *tape.Tape, img []byte, n int) ([]byte, []string) {
 			if len(ms) == 0 {
 				continue
 			}
-			m := ms[t.Draw(l+".m", len(ms))]
+			m := ms[posIn(t, l+".m", len(ms))]
 			name := string(out[m[2]:m[3]])
 			extra := tape.Pick(t, l+".extra", "ASCIIHexDecode", "LZWDecode", "FlateDecode", "RunLengthDecode", "ASCII85Decode", "DCTDecode", "CCITTFaxDecode", "NoSuchFilter")
 			repl := fmt.Sprintf("/Filter [/%s /%s]", name, extra)
@@ -180,8 +191,8 @@ func corrupt(t *tape.Tape, img []byte, n int) ([]byte, []string) {
 			if len(ms) < 2 {
 				continue
 			}
-			m := ms[t.Draw(l+".m", len(ms))]
-			src := ms[t.Draw(l+".src", len(ms))]
+			m := ms[posIn(t, l+".m", len(ms))]
+			src := ms[posIn(t, l+".src", len(ms))]
 			val := append([]byte(nil), out[src[4]:src[5]]...)
 			if t.Bool(l+".odd", 1, 5) {
 				val = []byte(tape.Pick(t, l+".oddv", "/DCTDecode", "/JBIG2Decode", "/CCITTFaxDecode", "/Crypt", "null", "true", "[]", "<<>>", "(x)"))
@@ -230,7 +241,17 @@ func Run(e *core.Env) {
 	e.Note("image", fmt.Sprintf("%d bytes (%d before corruption)", len(cimg), len(img)))
 	e.Note("corruption", kinds)
 	e.Note("mode", int(mode))
-	e.Sig(desc, kinds, int(mode))
+	var kindNames []string
+	for _, k := range kinds {
+		kindNames = append(kindNames, faultKind(k))
+	}
+	e.Sig(desc, kindNames, int(mode))
+	// the library's output bytes are not exactly reproducible (Go map order
+	// inside the writer), so the corrupted image travels with the replay file
+	if given, ok := e.Given("image"); ok {
+		cimg = given
+	}
+	e.Attach("image", cimg)
 	if len(kinds) > 0 && bytes.Contains(cimg[:min(len(cimg), 1100)], []byte("%PDF-")) {
 		e.Nontrivial()
 	}
